@@ -80,12 +80,12 @@ func TestVerifC19_sumvec_agg(t *testing.T) {
 			c19SV(3, 2, 1), c19SV(3, 2, 2), c19SV(3, 2, 6), c19SV(3, 2, 7),
 			c19SV(2, 64, 11), c19SV(2, 63, 126),
 		},
-		FullShares:  []int{2, 3},
-		LightShares: []int{4, 8, 9, 255},
-		MaxBatch:    3,
-		RTMaxBatch:  2,
-		Seeds:       r.Pick(2, 5),
-		DomainLimit: 8,
+		FullShares:    []int{2, 3},
+		LightShares:   []int{4, 8, 9, 255},
+		MaxBatch:      3,
+		RTMaxBatch:    2,
+		Seeds:         r.Pick(2, 5),
+		DomainLimit:   8,
 		SweepInsts:    []prio.Inst{c19SV(3, 1, 2)},
 		HistoryInsts:  []prio.Inst{c19SV(3, 1, 2), c19SV(2, 2, 3)},
 		HistoryShares: []int{2, 3},
@@ -98,6 +98,7 @@ func TestVerifC19_sumvec_agg(t *testing.T) {
 }
 
 func TestVerifC19_sumvec_invalid(t *testing.T) {
+	verifc19.SkipNarrow(t)
 	r := verifmc.Start(t, "C19", "sumvec_invalid")
 	defer r.Finish()
 	plan := verifc19.InvalidPlan{
